@@ -19,7 +19,7 @@ from vf.sym import MV, SymName, SymRef, SymInt, SymBool, SymDict, NONEVAL, PyExc
 from vf.spec import Z3Ops, P, View, CallShape, PO, POK, VP, KWO, VK
 from vf.interp import Interp, Inst, IClass
 from vf.harness import VC, mk_sig, mk_call, sig_view, pview, run_unit
-from .common import clause, name_term, ua_denotes, stands_of, install_concile_summary
+from .common import clause, name_term, ua_denotes, stands_of, install_concile_summary, ua_follows_goal, ua_return_goal
 from .merge import exc_is, src_entries, key_eq, sym_sig_data, real_sig_data
 from .mask import flag_value, same_params_term, same_sources_term
 from .embed import forwarded_call
@@ -122,9 +122,9 @@ def fwd_vcs(env, want):
                 out.append(VC(C_META.full + ':%s' % p._d.get('_vf_tag', '?'), [], p._d['_default'].has, C_META.props))
     if on(C_UA):
         for p in rparams:
-            h, den = ua_denotes(p._d['upgraded_annotation'], EmptyAnn)
-            an = p._d['_annotation']
-            out.append(VC(C_UA.full + ':%s' % p._d.get('_vf_tag', '?'), [], z3.And(h == an.has, z3.Implies(an.has, den == an.val)), C_UA.props))
+            o = p._d.get('_vf_origin')
+            cands = list({id(x): x for x in ([o] if o is not None else []) + stands_of(p)}.values())
+            out.append(VC(C_UA.full + ':%s' % p._d.get('_vf_tag', '?'), [], ua_follows_goal(p, EmptyAnn, cands=cands), C_UA.props))
     src = res._d.get('sources')
     if isinstance(src, SymDict) and (on(C_SRC_WF) or on(C_DEPTHS)):
         ent, dep = src_entries(src)
@@ -165,6 +165,8 @@ def fwd_vcs(env, want):
 
 def make_runner(shapes_, nnames=1, want=None, flags=FLAGS):
     I = Interp()
+    from vf import world as _world
+    _world.install_externals(I, {})     # eval(expression, f.__globals__) is the uninterpreted evalin
     install_concile_summary(I)
     m = I.module('sigtools._signatures')
     env = {'interp': I}
